@@ -294,6 +294,22 @@ pub fn c06(cx: &mut Ctx) {
             }
         }
     }
+    // two heads on the same flow: an informational response other than 100 is handed to the caller (it has
+    // no body); the final response that follows must get its own framing decision
+    for interim in ["HTTP/1.1 103 Early Hints\r\nLink: </x>\r\n\r\n", "HTTP/1.1 102 Processing\r\n\r\n", "HTTP/1.1 100 Continue\r\n\r\n"] {
+        for fin in ["HTTP/1.1 200 OK\r\nContent-Length: 5\r\n\r\n", "HTTP/1.1 200 OK\r\nTransfer-Encoding: chunked\r\n\r\n", "HTTP/1.1 200 OK\r\n\r\n", "HTTP/1.1 200 OK\r\nContent-Length: x\r\n\r\n", "HTTP/1.1 204 No\r\n\r\n"] {
+            for m in ["GET", "HEAD"] {
+                cx.case("twice");
+                if !to_recv_response_any(cx, m) { continue; }
+                cx.op(&format!("resp {}", hx(interim.as_bytes())));
+                cx.op("canproceed");
+                cx.op(&format!("resp {}", hx(fin.as_bytes())));
+                cx.op("canproceed");
+                cx.op("proceed");
+                if cx.rec.state() == "recvBody" { cx.op("mode"); }
+            }
+        }
+    }
     // request version differs from the response version
     for reqv in ["HTTP/1.0", "HTTP/1.1"] {
         for ver in [0u8, 1] {
@@ -520,6 +536,36 @@ pub fn c20(cx: &mut Ctx) {
         let mut full = enc.clone();
         if i % 2 == 0 { full.extend_from_slice(b"POST / HTTP/1.1\r\n"); }
         cx.op(&format!("parse-req {} {}", lim, hx(&full)));
+    }
+    // dense heads: the shortest legal field lines (`a:1`, `b:`), many of them, nothing after the head
+    for (ci, count) in [3usize, 12, 13, 20, 64, 100, 127, 128, 129].iter().enumerate() {
+        for empty_values in [false, true] {
+            cx.case("dense");
+            let mut fields: Vec<Field> = vec![];
+            for k in 0..*count {
+                let name = vec![b'a' + (k % 26) as u8];
+                let value = if empty_values && k % 3 == 1 { vec![] } else { vec![b'0' + (k % 10) as u8] };
+                fields.push(Field { name, pre: vec![], value, post: vec![] });
+            }
+            let h = Head { version: 1, status: 200, reason: Some(b"OK".to_vec()), fields: fields.clone() };
+            let enc = h.enc();
+            cx.meta(&h.meta());
+            cx.meta("limit 128");
+            let lim = 128;
+            for p in [enc.len() - 1, enc.len() - 2, enc.len() / 2, 17 + 4 * (ci + 1)] {
+                let p = p.min(enc.len());
+                cx.op(&format!("parse-resp {} {}", lim, hx(&enc[..p])));
+                cx.op(&format!("parse-partial {} {}", lim, hx(&enc[..p])));
+            }
+            cx.op(&format!("parse-resp {} {}", lim, hx(&enc)));
+            cx.op(&format!("parse-partial {} {}", lim, hx(&enc)));
+            let mut renc = b"GET / HTTP/1.1\r\n".to_vec();
+            renc.extend_from_slice(&enc_fields(&fields));
+            renc.extend_from_slice(b"\r\n");
+            cx.meta(&format!("reqhead {} {} 1 {}{}", hx(b"GET"), hx(b"/"), fields.len(), meta_fields(&fields)));
+            cx.op(&format!("parse-req {} {}", lim, hx(&renc[..renc.len() - 1])));
+            cx.op(&format!("parse-req {} {}", lim, hx(&renc)));
+        }
     }
     // malformed: short strings over a protocol alphabet
     let alpha: &[u8] = b"HTP/1.02 :\r\n\tG\x00\x80";
